@@ -361,6 +361,52 @@ def run_write(ctx, cases):
     return bad, scripted
 
 
+def gen_client_timeout_cases(ctx, n):
+    """the client's request write into a transport that stops taking bytes for good (`B`): (role, script)"""
+    r = ctx.rng
+    cases = [('client-rtu', 'a3,B'), ('client-tcp', 'a5,b,a2,B'), ('client-tcp', 'B'), ('client-rtu', 'a7,B'), ('client-rtu', 'a8,B')]
+    while len(cases) < n:
+        steps = []
+        for _ in range(r.choice([0, 1, 2, 3])):
+            steps.append('a%d' % r.choice([1, 2, 3, 5, 7]))
+            if r.random() < 0.5:
+                steps.append('b')
+        cases.append((r.choice(['client-rtu', 'client-tcp']), ','.join(steps + ['B'])))
+    return cases
+
+
+def run_client_timeout(ctx, cases):
+    out = ctx.harness('reply_write', [f'{role} {script} 1' for role, script in cases] + [f'{role} - 0' for role, script in cases], shards=8)
+    scripted, ref = out[:len(cases)], out[len(cases):]
+    evs = lambda script: '[' + ';'.join('CTake %s' % t[1:] if t[0] == 'a' else 'CTimeout' for t in script.split(',') if t != 'b') + ']'
+    model = ctx.coq_eval(fc.REQUIRES + ['Gen.WritePath', 'Model.WritePath'], 'eval_client_write',
+                         ['(%s, %s)' % (vlib.coq_N_list(bytes.fromhex(rf.split(' ')[0])), evs(script)) for (role, script), rf in zip(cases, ref)],
+                         case_type='list N * list cevent', per_shard=100)
+    bad = 0
+    for (role, script), s_, rf, m in zip(cases, scripted, ref, model):
+        f = dict(kv.split('=', 1) for kv in s_.split(' ')[1:]) if ' ' in s_ else {}
+        emitted = s_.split(' ')[0].replace('-', '')
+        frame = rf.split(' ')[0]
+        mout, _, spec = m.partition('|')
+        taken = sum(int(t[1:]) for t in script.split(',') if t[0] == 'a')
+        # Spec: a prefix of the one frame (what the transport took), the request fails with Io(TimedOut), the session ends on it
+        want = frame[:2 * min(taken, len(frame) // 2)]
+        complete = taken >= len(frame) // 2
+        ok = emitted == want and frame == spec and (complete or (f.get('result') == 'Io(TimedOut)' and f.get('session') == 'Io(TimedOut)'))
+        if not ok:
+            bad += 1
+            if bad == 1:
+                ctx.violation(f'{role}.request-write-not-bounded-or-not-a-prefix',
+                              f'`reply_write: {role} {script} 1`: the transport took {emitted or "-"} of the request {frame} and never more; 3 s later: {s_[:160]} '
+                              f'(prescribed: exactly the prefix {want or "-"} on the wire, the request fails with Io(TimedOut) when its 1 s timeout elapses and the session ends)',
+                              {'cases': [{'client_timeout': [role, script]}], 'impl': s_, 'spec': want + ':Io(TimedOut)', 'model': mout, 'harness_line': f'reply_write: {role} {script} 1'})
+        elif not complete and mout != emitted + ':Io(TimedOut)':
+            bad += 1
+            ctx.violation(f'{role}.client-write-model-differs-from-impl', f'{role} {script}: impl {s_[:80]} model {mout[:80]}',
+                          {'cases': [{'client_timeout': [role, script]}], 'impl': s_, 'model': mout}, no_failing_input=True)
+    return bad, scripted
+
+
 def run_pty(ctx, rounds):
     """the REAL serial arm of PhysLayer::write behind a pseudo terminal whose queue fills up"""
     out = ctx.harness('pty_serial', [' '.join(str(x) for x in rounds)], timeout=120)[0]
@@ -419,7 +465,7 @@ def run(ctx):
         ctx.coqchk()
     if not ctx.build_harness() or not models_ok:
         return
-    emit_lines = server_cases = client_cases = reopen_cases = write_cases = pty_rounds = None
+    emit_lines = server_cases = client_cases = reopen_cases = write_cases = pty_rounds = timeout_cases = None
     if ctx.replay and 'cases' in ctx.replay:
         cs = ctx.replay['cases']
         cases = [fc.case_from_json(c) for c in cs if not isinstance(c, dict)]
@@ -430,6 +476,7 @@ def run(ctx):
         reopen_cases = [[(fin, [bytes.fromhex(x) for x in ch]) for fin, ch in c['reopen']] for c in cs if isinstance(c, dict) and 'reopen' in c]
         write_cases = [tuple(c['write']) for c in cs if isinstance(c, dict) and 'write' in c]
         pty_rounds = [c['pty'] for c in cs if isinstance(c, dict) and 'pty' in c]
+        timeout_cases = [tuple(c['client_timeout']) for c in cs if isinstance(c, dict) and 'client_timeout' in c]
     else:
         cases, tags = gen_reader_cases(ctx, 800 if ctx.quick() else 6000)
     decode = (ctx.replay or {}).get('decode', 'min')
@@ -516,6 +563,11 @@ def run(ctx):
     bad_w, write_impl = run_write(ctx, write_cases) if write_cases else (0, [])
     if write_cases:
         ctx.oblige('correspondence:emitted-bytes-under-congestion-and-commands', bad_w == 0, f'{bad_w} mismatches over {len(write_cases)} scripted writes')
+    if timeout_cases is None:
+        timeout_cases = gen_client_timeout_cases(ctx, 60 if ctx.quick() else 600)
+    bad_t, timeout_impl = run_client_timeout(ctx, timeout_cases) if timeout_cases else (0, [])
+    if timeout_cases:
+        ctx.oblige('correspondence:client-request-write-bounded-by-timeout', bad_t == 0, f'{bad_t} mismatches over {len(timeout_cases)} writes into a transport that stops taking bytes')
     if pty_rounds is None:
         pty_rounds = [[125, 124, 101]]
     pty_out = ''
@@ -552,6 +604,9 @@ def run(ctx):
         bump('write:' + c[0])
         if 'parked=0' not in i and c[2] > 0:
             bump('write:commands_while_parked')
+    for i in timeout_impl:
+        if 'result=Io(TimedOut)' in i:
+            bump('write:client_write_timed_out')
     for rd in (pty_out.split(' / ') if 'regs=' in pty_out else []):
         bump('pty:congested_round')
     for c, i in zip(reopen_cases, reopen_impl):
@@ -570,12 +625,12 @@ def run(ctx):
     if not ctx.replay:
         need = (['corrupt:%s->rejected' % c for c in CLASSES] + ['stream:fc:%d' % f for f in fc.FCS] +
                 ['stream:exception_reply', 'stream:length_preserving', 'stream:length_changing', 'ending:Crc', 'ending:UnknownFunctionCode',
-                 'ending:FrameLengthTooBig', 'role:rtureq', 'role:rtursp', 'schedule:byte_per_byte', 'mode:resume', 'mode:cancel', 'cancel:abandoned_mid_frame', 'stream:stale_state_bait', 'buffer:full_with_1..7_consumed', 'client_result:Ok', 'client_result:BadFrame', 'client_result:Exception', 'reopen:framing_error_then_reopen', 'reopen:handler_called', 'write:commands_while_parked'])
+                 'ending:FrameLengthTooBig', 'role:rtureq', 'role:rtursp', 'schedule:byte_per_byte', 'mode:resume', 'mode:cancel', 'cancel:abandoned_mid_frame', 'stream:stale_state_bait', 'buffer:full_with_1..7_consumed', 'client_result:Ok', 'client_result:BadFrame', 'client_result:Exception', 'reopen:framing_error_then_reopen', 'reopen:handler_called', 'write:commands_while_parked', 'write:client_write_timed_out'])
         missing = [k for k in need if classes.get(k, 0) < 3]
         ctx.oblige('generator-reaches-expected-classes', not missing, 'missing: ' + ','.join(missing))
     nontrivial = set(fc.to_line(c) for c, (t, _) in zip(cases, tags) if any(x.startswith('corrupt:') for x in t))
     ctx.coverage.update({
-        'evaluations': len(cases) + len(emit_lines) + len(server_cases) + len(client_cases) + len(reopen_cases) + len(write_cases) + len(pty_rounds),
+        'evaluations': len(cases) + len(emit_lines) + len(server_cases) + len(client_cases) + len(reopen_cases) + len(write_cases) + len(pty_rounds) + len(timeout_cases),
         'distinct_nontrivial': len(nontrivial) + len(set(e for e, _ in sent)),
         'rule': 'reader cases (role, stop/resume, ending, chunk list) from a seeded PRNG: directed list, then streams of 1-5 RTU frames of the eight functions / exception replies, '
                 'one of them corrupted (8 classes; every role x function x class combination first), x chunk schedules; non-trivial = stream contains a corrupted frame; '
